@@ -20,10 +20,21 @@ class Fn:
         self.mode, self.trusted, self.has_body = mode, trusted, has_body
 
 
+def verus_ranges(m):
+    out = []
+    for mm in re.finditer(r"\bverus!\s*\{", m):
+        ob = mm.end() - 1
+        out.append((ob, R.match_bracket(m, ob)))
+    return out
+
+
 def functions(g, m):
     fns = []
+    vr = verus_ranges(m)
     for mm in re.finditer(r"\bfn\s+(\w+)", m):
         kw = mm.start()
+        if not any(a < kw < b for (a, b) in vr):
+            continue   # plain Rust outside verus!{}: not verified, not an obligation
         # find end of signature: `{` at depth 0 or `;`
         d = 0
         k = mm.end()
@@ -150,6 +161,23 @@ def enumerate_obligations(g):
             key = (f.name, kw)
             counters[key] = counters.get(key, 0) + 1
             obs.append(dict(id=f"{f.name}/{kw}#{counters[key]}", kind=kw, fn=f.name, start=a, end=b, text=text))
+    # call-site obligations: every call (from verified code) of a function that has a `requires` clause
+    with_req = set()
+    for mm in re.finditer(r"\brequires\b", m):
+        f = enclosing(mm.start())
+        if f is not None and f.kw <= mm.start() < f.sig_end:
+            with_req.add(f.name)
+    for f in fns:
+        if f.trusted or f.mode == "spec" or not f.has_body:
+            continue
+        for name in sorted(with_req):
+            for cm in re.finditer(r"(?<![\w:])(?:self\.|[\w.]*\.)?" + re.escape(name) + r"\s*\(", m[f.sig_end:f.end]):
+                pos = f.sig_end + cm.start()
+                key = (f.name, "pre:" + name)
+                counters[key] = counters.get(key, 0) + 1
+                e = R.match_bracket(m, f.sig_end + cm.end() - 1) + 1
+                obs.append(dict(id=f"{f.name}/precondition-of-{name}#{counters[key]}", kind="precondition", fn=f.name,
+                                start=pos, end=e, text=R.norm_ws(g[pos:e])[:200]))
     for mm in re.finditer(r"\bassert\b\s*(\(|forall)", m):
         f = enclosing(mm.start())
         if f is None or f.trusted:
